@@ -29,6 +29,7 @@ import (
 	"github.com/corazawaf/coraza/v3/internal/corazarules"
 	"github.com/corazawaf/coraza/v3/internal/corazatypes"
 	"github.com/corazawaf/coraza/v3/internal/environment"
+	"github.com/corazawaf/coraza/v3/internal/verif"
 	stringsutil "github.com/corazawaf/coraza/v3/internal/strings"
 	urlutil "github.com/corazawaf/coraza/v3/internal/url"
 	"github.com/corazawaf/coraza/v3/types"
@@ -1716,6 +1717,10 @@ func (tx *Transaction) Close() error {
 			// is aware of the files and then attempt to delete them when the collection
 			// is resetted or an item is removed.
 			for _, file := range tx.variables.filesTmpNames.Get("") {
+				if err := verif.Fault("tx.remove"); err != nil {
+					errs = append(errs, fmt.Errorf("removing temporary file: %v", err))
+					continue
+				}
 				if err := os.Remove(file); err != nil {
 					errs = append(errs, fmt.Errorf("removing temporary file: %v", err))
 				}
